@@ -25,7 +25,7 @@ for pid in ids:
     })
 m = {
     "version": 1,
-    "setup_cmd": "cd /verif/harness && CARGO_NET_OFFLINE=true CARGO_TARGET_DIR=/verif/.build/target cargo build --offline --release --bins && CARGO_NET_OFFLINE=true CARGO_TARGET_DIR=/verif/.build/target cargo build --offline --release --bin c20 --features az && python3 /verif/checks/c20_driver.py --warm",
+    "setup_cmd": "cd /verif/harness && CARGO_NET_OFFLINE=true CARGO_TARGET_DIR=/verif/.build/target cargo build --offline --release --bins && CARGO_NET_OFFLINE=true CARGO_TARGET_DIR=/verif/.build/target cargo build --offline --release --bin c20 --features az && CARGO_NET_OFFLINE=true CARGO_TARGET_DIR=/verif/.build/target cargo build --offline --profile relsem --bin c12 --bin c17 && python3 /verif/checks/c20_driver.py --warm",
     "hooks": {
         "guard": "vek_verif",
         "enable": "none needed: every check observes vek through its public API and public fields; RUSTFLAGS=\"--cfg vek_verif\" is reserved and currently guards nothing",
